@@ -62,6 +62,26 @@ func (a *Analysis) NoRescan() *report.RuleResult {
 			}
 		}
 		ast.Inspect(fd.Body, func(n ast.Node) bool {
+			// lex.data = data (field assignments instead of a literal)
+			if as, ok := n.(*ast.AssignStmt); ok && len(as.Lhs) == len(as.Rhs) {
+				for i, l := range as.Lhs {
+					se, ok := unparen(l).(*ast.SelectorExpr)
+					vid, _ := unparen(as.Rhs[i]).(*ast.Ident)
+					if !ok || vid == nil || !params[info.Uses[vid]] {
+						continue
+					}
+					if sel := info.Selections[se]; sel != nil && sel.Kind() == types.FieldVal {
+						if fv, ok := sel.Obj().(*types.Var); ok {
+							for k := 0; k < lexer.NumFields(); k++ {
+								if lexer.Field(k) == fv {
+									fileSized[fv] = "the input"
+								}
+							}
+						}
+					}
+				}
+				return true
+			}
 			cl, ok := n.(*ast.CompositeLit)
 			if !ok || info.TypeOf(cl) == nil || info.TypeOf(cl).Underlying() != lexer {
 				return true
